@@ -74,6 +74,13 @@ PROGRAMS = [
     ('combination', 'combination(6, 3, 3)'),
     ('lazy-unforced', 'range(1000).map(inc).len()'),
     ('chars', '"héllo".chars().to_array()'),
+    ('str-wide', '"中" * 300'),
+    ('str-wide-concat', '("é" * 200) + ("😀" * 100)'),
+    ('big-int-4000', '2 ** 4000 + 1'),
+    ('mapping-collisions', 'mapping((k: int)->{ 0 }, (a: int, b: int)->{ a == b }).update(range(40).map((x: int)->{ (x, x) }))'),
+    ('set-collisions', 'set((k: int)->{ k % 2 }, (a: int, b: int)->{ a == b }).update(range(40))'),
+    ('array-200', 'range(200).to_array()'),
+    ('stack-50', 'range(50).to_stack()'),
 ]
 THOROUGH_EXTRA = [
     ('big-pow', '3 ** 500'),
@@ -259,6 +266,30 @@ def _program(args):
     return fails, stats
 
 
+# containers built from pre-existing elements: the container's own accounted size is the difference between keeping
+# (elements, container) and keeping the elements alone; it must cover one pointer per element (two per mapping entry)
+OWN = [
+    ('mapping-injective', 'mapping<int>().update(kv)', 16),
+    ('mapping-constant-hash', 'mapping((k: int)->{ 0 }, (a: int, b: int)->{ a == b }).update(kv)', 16),
+    ('mapping-mod3-hash', 'mapping((k: int)->{ k % 3 }, (a: int, b: int)->{ a == b }).update(kv)', 16),
+    ('set-injective', 'set<int>().update(ks)', 8),
+    ('set-constant-hash', 'set((k: int)->{ 0 }, (a: int, b: int)->{ a == b }).update(ks)', 8),
+    ('array-copy', 'ks.push(7)', 8),
+    ('stack', 'ks.to_stack()', 8),
+]
+
+
+def _own(args):
+    name, expr, per, n = args
+    pre = 'let ks = range(%d).map((x: int)->{ x * 3 }).to_array(); let kv = ks.map((x: int)->{ (x, x) }).to_array();' % n
+    a = observe(pre + ' (ks, kv)', HUGE)
+    b = observe(pre + ' (ks, kv, %s)' % expr, HUGE)
+    if 'fatal' in a or 'fatal' in b or not a.get('feed_ok') or not b.get('feed_ok'):
+        return (name, n, None, per * n, b.get('job'), 'crash')
+    own = (b['kept_bytes'] - b['post_inst']) - (a['kept_bytes'] - a['post_inst'])
+    return (name, n, own, per * n, b['job'], None)
+
+
 def run(tier):
     rep = Report(PROP, tier, 'fault_enumeration',
                  'corpus of value-building programs; for each, the allocation trace of an unlimited run gives every cumulative total; '
@@ -278,6 +309,15 @@ def run(tier):
         for sig, case, exp, act, job in fails:
             rep.fail(Failure(PROP, sig, case, exp, act, job))
     rep.bounds['limit_values_total'] = tot_thr
+    own_work = [(nm, ex, per, n) for (nm, ex, per) in OWN for n in ((40, 200) if tier == 'quick' else (1, 8, 40, 200, 1000))]
+    for (name, n, own, need, job, err) in pmap(_own, own_work):
+        rep.evaluations += 2
+        rep.nontrivial_count += 1
+        if err:
+            rep.fail(Failure(PROP, 'C09|own-size|%s|n=%d|crash' % (name, n), {'container': name, 'n': n}, 'a value', err, job))
+        elif own < need:
+            rep.fail(Failure(PROP, 'C09|own-size|%s|n=%d|under-accounted' % (name, n), {'container': name, 'n': n},
+                             'the container itself accounts for >= %d bytes (one pointer per element / two per entry)' % need, own, job))
     rep.sample({'program': progs[0][1]})
     rep.sample({'program': progs[len(progs) // 2][1]})
     rep.sample({'program': progs[-1][1]})
